@@ -210,7 +210,11 @@ def run(prop, tier, seed, replay=None):
         from . import c10
 
         vrng = random.Random(seed * 577 + 7)
-        djobs = [j for j in c10.gen_jobs(tier, seed + 500) if c10.judged_ok(j["methods"]) and all(isinstance(c, list) for c in j["calls"])]
+        def plain_bounds(ms):   # the Impl layer of value dispatch (needed to attribute the known deviations) models class bounds only
+            return all(t["k"] == "cls" or t["bound"]["k"] == "cls" for m in ms for t in m["pos"])
+
+        djobs = [j for j in c10.gen_jobs(tier, seed + 500) if c10.judged_ok(j["methods"]) and all(isinstance(c, list) for c in j["calls"])
+                 and plain_bounds(j["methods"])]
         for q, j in enumerate(djobs[:-1]):
             npos = len(j["methods"][0]["pos"])
             for m in j["methods"]:
